@@ -154,6 +154,25 @@ class Interp:
         except _Return as r:
             return r.v
 
+    def call_by_type(self, f, spec):
+        """Call f with arguments matched to its parameters by *type*, not by position: spec = [(type substring, value), ...] in
+        today's parameter order. A private function whose parameters were reordered (a refactoring that changes no behaviour)
+        is still called correctly; parameters of the same type keep their relative order; a parameter no spec entry fits, or a
+        spec entry left over, means the signature really changed - Unsupported (the rule fails closed and says so)."""
+        left = list(spec)
+        args = []
+        for p in f["params"]:
+            ty = self.C.S(p.get("ty")) or ""
+            # `name:<part>` matches the parameter's name instead (for parameters that share a type, e.g. a max and a min limit)
+            hit = next((i for i, (pat, _) in enumerate(left)
+                        if (pat[5:] in (p.get("name") or "") if pat.startswith("name:") else pat in ty)), None)
+            if hit is None:
+                raise Unsupported("signature of %s changed: no argument for parameter `%s: %s`" % (f["path"], p.get("name"), ty))
+            args.append(left.pop(hit)[1])
+        if left:
+            raise Unsupported("signature of %s changed: %d argument(s) have no parameter (%s)" % (f["path"], len(left), [p for p, _ in left]))
+        return self.call_fn(f, args)
+
     # -- patterns
     def bind(self, p, v, env):
         k = p.get("k")
